@@ -33,6 +33,8 @@ type SyncSpec struct {
 	ErrAfter     int    `json:"errafter"`               // answer an error once this many blocks have been served, -1 = never
 	ForkMode     string `json:"forkmode,omitempty"`     // "" = both forks like the prefix (Full); "peerfull" = own fork by two validators, peer's fork by all (better although shorter)
 	NonValidator bool   `json:"nonvalidator,omitempty"` // the generator of the triggering block is not among the current validators handed to Sync
+	Batch        int    `json:"batch,omitempty"`        // the peer serves at most this many blocks per getBlocksFromID response (0 = up to the 103 cap); still honest
+	SlowFirst    int    `json:"slowfirst,omitempty"`    // the peer answers its first SlowFirst getBlocksFromID requests after 300 ms each (a slow link that recovers); the sync is started so that the recovery falls just after a rate-limiter tick
 	Recent       bool   `json:"recent,omitempty"`       // genesis time such that the last block's slot is the current one (the finalized block is recent)
 	// third node: the SENDER of the block that triggers the sync is not the best peer. It shares the prefix and the first
 	// SenderShare blocks of our own fork, then has SenderOwn blocks of its own
@@ -77,6 +79,8 @@ type SyncObs struct {
 	BlockH         uint32      `json:"blockh"`         // height of the block that triggers the sync (the sender's tip)
 	SlotGap        int         `json:"slotgap"`        // current slot - slot of our finalized block
 	NVals          int         `json:"nvals"`          // len(CurrentValidators) handed to Sync
+	PenOwn         int         `json:"penown"`         // penalty our gater added for the peers' address during the sync
+	PenPeer        int         `json:"penpeer"`        // penalty the best peer's gater added for our address during the sync
 	GenIsValidator bool        `json:"genisvalidator"` // the triggering block's generator is among them
 	TempBefore     [][2]uint64 `json:"tempbefore"`     // (height, code) of A's temp blocks before this sync
 	Finalized      uint32      `json:"finalized"`      // A's finalized height before
@@ -307,7 +311,12 @@ func runSyncAll(spec SyncSpec, pre, after func(a *exh.Node)) (out []SyncObs) {
 			w.Write(cw.data)
 		}
 	})
+	bfiRequests := 0
 	_ = connB.RegisterRPCHandler(csync.RPCEndpointGetBlocksFromID, func(w p2p.ResponseWriter, r *p2p.Request) {
+		bfiRequests++
+		if bfiRequests <= spec.SlowFirst {
+			time.Sleep(300 * time.Millisecond)
+		}
 		if sc.errAfter >= 0 && served >= sc.errAfter {
 			switch sc.stall {
 			case "empty": // a well-formed response that decodes to zero blocks
@@ -337,8 +346,11 @@ func runSyncAll(spec SyncSpec, pre, after func(a *exh.Node)) (out []SyncObs) {
 			return
 		}
 		outBlocks := []*blockchain.Block{}
-		for _, blk := range resp.Blocks {
+		for bi, blk := range resp.Blocks {
 			if sc.errAfter >= 0 && served >= sc.errAfter {
+				break
+			}
+			if spec.Batch > 0 && bi >= spec.Batch {
 				break
 			}
 			blk.Init()
@@ -383,6 +395,7 @@ func runSyncAll(spec SyncSpec, pre, after func(a *exh.Node)) (out []SyncObs) {
 		return nil
 	}
 	defer connA.Stop() //nolint:errcheck
+	startB := time.Now()
 	if err := connB.Start([]byte{}); err != nil {
 		obs.Fail = "start B: " + err.Error()
 		return nil
@@ -511,9 +524,20 @@ func runSyncAll(spec SyncSpec, pre, after func(a *exh.Node)) (out []SyncObs) {
 			lowBefore = append(lowBefore, a.HeaderAt(h).ID)
 		}
 		dumpBeforeKV := a.Dump()
+		penOwn0, penPeer0 := connA.Peer.VerifC19PenaltyScore("127.0.0.1"), connB.Peer.VerifC19PenaltyScore("127.0.0.1")
+		if spec.SlowFirst > 0 {
+			// the slow phase takes SlowFirst * 0.3 s; let the fast phase begin 0.3 s after a tick of the 10 s rate-limiter interval
+			slow := time.Duration(spec.SlowFirst) * 300 * time.Millisecond
+			since := time.Since(startB) % (10 * time.Second)
+			wait := (20*time.Second + 300*time.Millisecond - slow - since) % (10 * time.Second)
+			time.Sleep(wait)
+		}
 		wd := spec.wd
 		if wd == 0 {
 			wd = 12 * time.Second
+		}
+		if spec.Batch > 0 { // one request per Batch blocks at 10 requests per second
+			wd += time.Duration(spec.Peer/spec.Batch)*150*time.Millisecond + time.Duration(spec.SlowFirst)*400*time.Millisecond + 10*time.Second
 		}
 		ctx, cancel := context.WithTimeout(context.Background(), 2*wd+time.Second)
 		curVals := vals
@@ -580,6 +604,7 @@ func runSyncAll(spec SyncSpec, pre, after func(a *exh.Node)) (out []SyncObs) {
 		obs.Banned = len(connA.Peer.BlacklistedPeers()) > 0
 		bannedBefore = obs.Banned
 		obs.TempAfter = tempOf()
+		obs.PenOwn, obs.PenPeer = connA.Peer.VerifC19PenaltyScore("127.0.0.1")-penOwn0, connB.Peer.VerifC19PenaltyScore("127.0.0.1")-penPeer0
 		// byte-identical up to the temp table (observed separately) and what finality legitimately changes: blocks applied and removed again may have advanced the
 		// finalized height (never rolled back, key 1b) which prunes the state diffs (prefix 33) at or below it
 		dumpAfterKV := a.Dump()
